@@ -24,4 +24,6 @@ const (
 	maxBulkLength = 512 * 1024 * 1024
 	// initialArrayCapacity bounds the capacity that is allocated from a declared array size.
 	initialArrayCapacity = 1024
+	// maxArrayDepth is the maximum nesting depth of arrays (the limit of encoding/json for nested values).
+	maxArrayDepth = 10000
 )
